@@ -592,13 +592,43 @@ def do_check(pid, cfg, tier, seed):
                 return False
             o = r[-1]
             return o[3] is not None and o[3] != "-" and o[1] != o[3]
-        sop = shrink_op(None, op, setup, pred)
-        r, _ = eval_ops(setup + [sop])
+        history = []
+        if not pred(op):
+            # the answer depends on what the same objects were used for before (state kept between calls): look for the
+            # shortest run of preceding ops after which this op differs again, then drop the ops of it that are not needed
+            ops_only = [r_[0] for r_ in results]
+            idx = next((i for i, r_ in enumerate(results) if r_[0] == op and r_[1] == impl), None)
+            setup_set = set(setup)
+
+            def pred_h(hist):
+                r_, err_ = eval_ops(setup + hist + [op])
+                if err_ or not r_:
+                    return False
+                o = r_[-1]
+                return o[3] is not None and o[3] != "-" and o[1] != o[3]
+            if idx is not None:
+                for k in (1, 2, 4, 8, 16, 32, 64, 128):
+                    w = [o for o in ops_only[max(0, idx - k):idx] if o not in setup_set]
+                    if pred_h(w):
+                        history = w
+                        break
+                i = 0
+                while i < len(history) and len(history) > 1:
+                    cand = history[:i] + history[i + 1:]
+                    if pred_h(cand):
+                        history = cand
+                    else:
+                        i += 1
+        if history:
+            r, _ = eval_ops(setup + history + [op])
+        else:
+            sop = shrink_op(None, op, setup, pred)
+            r, _ = eval_ops(setup + [sop])
         if r:
             op, impl, model, spec = r[-1]
         path = write_replay(pid, dict(property=pid, kind="counterexample", seed=seed, tier=tier,
                                       race_reports=race_text,
-                                      setup=[s for s in setup if needs_setup(s, op)], ops=[op],
+                                      setup=[s for s in setup if needs_setup(s, op)], ops=history + [op],
                                       impl=impl, model=model, spec=spec,
                                       note="implementation answer differs from the specification on this input",
                                       broken_obligations=lp["problems"] + corr_problems))
